@@ -24,10 +24,11 @@ Spec == Init /\ [][Next]_vars
 Vw == st
 InvMutualInverse == MutualInverse(st)
 InvNoNoneFromNowhere == TRUE
-ActTotal == [][\A o \in Ops : Outcomes(st, o) # {}]_vars
-ActSidesSymmetric == [][\A o \in Ops : o.op \notin {"ctor", "unique"} =>
+InvTotal == \A o \in Ops : Outcomes(st, o) # {}
+(* an operation on o.inv is the same operation on the transposed relation *)
+InvSidesSymmetric == \A o \in Ops : o.op \notin {"ctor", "unique"} =>
       LET flip == [o EXCEPT !.side = IF o.side = "fwd" THEN "inv" ELSE "fwd"] IN
-      {x.s : x \in Outcomes(st, o)} = {Norm(Swap(Rel(y.s))) : y \in Outcomes(Norm(Swap(Rel(st))), flip)}]_vars
+      {x.s : x \in Outcomes(st, o)} = {Norm(Swap(Rel(y.s))) : y \in Outcomes(Norm(Swap(Rel(st))), flip)}
 ActRefusedUnchanged == [][last'.o.r.e = "TypeError" => st' = st]_vars
 EmitI == (last.op.op = "init") => PrintT(<<"I", ToJson(st)>>)
 EmitS == PrintT(<<"S", ToJson([s |-> st, obs |-> Obs(st)])>>)
